@@ -364,6 +364,18 @@ func (c *Canary) handleTCP(eh *ethernet.Frame, iph *ipv4.Header, data []byte) er
 
 	state.t = time.Now()
 
+	// every connection attempt counts for the port scan detection (this used to sit below
+	// the SYN handling, which returns early, and was never reached)
+	if hdr.Ctrl&tcp.SYN == tcp.SYN {
+		c.knockChan <- KnockTCPPort{
+			SourceHardwareAddr:      eh.Source,
+			DestinationHardwareAddr: eh.Destination,
+			SourceIP:                iph.Src,
+			DestinationIP:           iph.Dst,
+			DestinationPort:         hdr.Destination,
+		}
+	}
+
 	// https://tools.ietf.org/html/rfc793
 	// page 65
 
@@ -619,16 +631,6 @@ func (c *Canary) handleTCP(eh *ethernet.Frame, iph *ipv4.Header, data []byte) er
 			// transmitted if possible without incurring undue delay.
 			// fmt.Printf("ACK'ing %d %d\n", state.SendNext, state.RecvNext)
 			c.send(state, []byte{}, tcp.ACK)
-		}
-	}
-
-	if hdr.Ctrl&tcp.SYN == tcp.SYN {
-		c.knockChan <- KnockTCPPort{
-			SourceHardwareAddr:      eh.Source,
-			DestinationHardwareAddr: eh.Destination,
-			SourceIP:                iph.Src,
-			DestinationIP:           iph.Dst,
-			DestinationPort:         hdr.Destination,
 		}
 	}
 
